@@ -141,7 +141,7 @@ def tla_set(xs):
 
 def run_design(ctx, module, cfgname, constants, invariants=(), properties=(), view=None,
                action_constraint=None, constraint=None, workers=None, timeout=1800, heap="8g",
-               on_line=None, tag="SCN", extra_args=(), simulate=False):
+               on_line=None, tag="SCN", extra_args=(), simulate=False, spec="Spec"):
     """Run an exhaustive TLC design model in a scratch copy of spec/.  Lines printed as
     <<"TAG", "json">> are decoded and passed to on_line.  Returns (generated, distinct)."""
     d = ctx.sub("design-" + cfgname)
@@ -149,7 +149,7 @@ def run_design(ctx, module, cfgname, constants, invariants=(), properties=(), vi
         if fn.endswith(".tla"):
             shutil.copyfile(os.path.join(SPEC, fn), os.path.join(d, fn))
     cfg = os.path.join(d, cfgname + ".cfg")
-    write_cfg(cfg, "Spec", constants, invariants, properties, view, action_constraint, constraint)
+    write_cfg(cfg, spec, constants, invariants, properties, view, action_constraint, constraint)
     cmd = _tlc_cmd(workers or min(NCPU, 8), os.path.join(d, "meta"), cfg, module + ".tla", extra_args)
     t0 = time.time()
     p = subprocess.Popen(cmd, cwd=d, env=tlc_env(heap), stdout=subprocess.PIPE, stderr=subprocess.STDOUT, text=True)
